@@ -421,9 +421,11 @@ def c07_streams(run, tier, seed):
             bins["blob.bin"] = bins["blob.bin"][:ln]
             extra = ".incbin 'blob.bin'\nafterbin:\n.dw blob_bin__size\n.dl blob_bin\n"
         txt = "".join(rng.choice(["a", "b", "c", " ", "X", "Y", "Z", "0", "9", "é", "\\'", "[0x41]", "[0x7f]", "[", "]", "[0x", "{", "}", ";", "/*", ",", "\\n", "%", "\t"]) for _ in range(rng.randrange(0, 6)))
-        if rng.random() < 0.15:
-            # comment-looking text inside a string is text: a complete /* */ pair, or its halves in two strings
-            txt = rng.choice(["see /* the manual */ p.3", "a/*b*/c", "/**/", "x */ y /* z", "/* open", "close */", "; not a comment /* */"])
+        if i % 6 == 3:
+            # comment-looking text inside a string is text (a complete /* */ pair, its halves); a text that ends with an
+            # escaped quote
+            txt = ["see /* the manual */ p.3", "a/*b*/c", "/**/", "x */ y /* z", "/* open", "close */", "; not a comment /* */",
+                   "he said \\'go\\'", "x\\'", "\\'"][(i // 6) % 10]
         src = f"*=0x{base:06x}\nstart:\n.{kind} " + ", ".join(items) + f"\nafter:\n.ascii '{txt}'\nafter2:\n{extra}end:\n"
         progs.append(raw("low_rom", src, bins=bins, meta=(kind, n, base, total, txt)))
     # long operand lists (a data table of a thousand entries on one directive)
